@@ -36,8 +36,13 @@ _SKIP_TYPES = (types.ModuleType, types.FunctionType, types.BuiltinFunctionType, 
                logging.Logger, types.MethodType)
 
 
+_MODCACHE = []
+
+
 def _emd_modules():
-    out = []
+    if _MODCACHE:
+        return _MODCACHE
+    out = _MODCACHE
     for name in sorted(sys.modules):
         if (name == 'emd' or name.startswith('emd.')) and not name.startswith('emd.tests'):
             m = sys.modules[name]
